@@ -181,6 +181,13 @@ func offSection(r *vlib.Run) {
 			var xs, ys []float64
 			rev := rng.Intn(2) == 0
 			var info pinfo
+			// non-convex quads and pentagons ("darts": one vertex pulled towards the centre), with the
+			// reflex corner at every list position
+			dart := -1
+			if n <= 5 && rng.Intn(2) == 0 {
+				dart = rng.Intn(n)
+				c.Count("off.dart_polygons", 1)
+			}
 			for i := 0; i < n; i++ {
 				k := i
 				if rev {
@@ -188,6 +195,12 @@ func offSection(r *vlib.Run) {
 				}
 				th := 2 * math.Pi * (float64(k) + 0.6*rng.Float64()) / float64(n)
 				rad := 0.6 + 0.8*rng.Float64()
+				if dart >= 0 {
+					rad = 1 + 0.4*rng.Float64()
+					if i == dart {
+						rad = 0.1 + 0.15*rng.Float64()
+					}
+				}
 				x, y := rad*math.Cos(th), rad*math.Sin(th)
 				xs, ys = append(xs, x), append(ys, y)
 				info.idx = append(info.idx, len(verts))
